@@ -69,7 +69,7 @@ def run(chk):
     dist = dict(bias={}, bs={}, wait={}, end_marker={}, lazy_time=0, deadline_ties_item_taken=0, deadline_ties_item_missed=0,
                 taken_past_deadline=0, short_by_timeout=0, short_by_marker=0, full=0, never_ended=0, holds=0)
     # thorough: several rounds so that the results of one round can be dropped before the next
-    rounds = [6000] if chk.tier == 'quick' else [40000] * 8
+    rounds = [4000] if chk.tier == 'quick' else [40000] * 6
     for k, n in enumerate(rounds):
         results = core.e1_flow(chk, 'scen_eager', 'eager', {'C19'},
                                lambda rng: scen_eager.gen_case(rng, chk.tier), n, keyfn=keyfn,
@@ -85,7 +85,7 @@ def run(chk):
                 if l.startswith('ok ') and ' cf=' in l:
                     v = l.rsplit(' cf=', 1)[1]
                     cf[v] = cf.get(v, 0) + 1
-            dist['closed_form_on_first_6000'] = cf
+            dist['closed_form_first_6000_of_round_1'] = cf
         del results
         if chk.violations or chk.corr_breaks:
             break
@@ -158,11 +158,20 @@ ASSUMPTIONS = [
 
 
 def replay(chk, data):
-    res = chk.run_cases('scen_eager', [data['case']])
+    """re-run a replay file (monitor hit, or a broken correspondence) against the current tree"""
+    case = data.get('case')
+    if case is None and data.get('correspondence_breaks'):
+        case = data['correspondence_breaks'][0]['case']
+    if case is None:
+        print('replay file has no case (Lean-side problem only):', data.get('lean_problems'))
+        return 1
+    res = chk.run_cases('scen_eager', [case])
     case, r = res[0]
     hits = [m for m in r['monitors'] if m['prop'] == chk.prop]
-    print(json.dumps(dict(monitors=r['monitors'], events=r.get('events'), received=r.get('received')), default=str)[:3000])
-    if hits:
-        print(f'VIOLATION property={chk.prop} replay=(replayed)')
+    verdict = core.run_driver('eager', scen_eager.model_lines(0, case, r))
+    print(json.dumps(dict(monitors=r['monitors'], model=verdict, events=r.get('events'), received=r.get('received')),
+                     default=str)[:3000])
+    if hits or not (verdict and verdict[-1].startswith('ok ')):
+        print(f'VIOLATION property={chk.prop} replay=(replayed)' + ('' if hits else ' no-failing-input-found'))
         return 1
     return 0
